@@ -20,20 +20,6 @@ Definition wtof (k : ballot cand) (bs : list (ballot cand)) : Q :=
 Definition distinct_contents (l : list (ballot cand)) : Prop :=
   ForallOrdPairs (fun a b => same_content a b = false) l.
 
-(* the content "same ranking, no scores" *)
-Definition unscored (b : ballot cand) : ballot cand := mkBallot (rk b) (wt b) [] None None.
-
-(* no ranking is cast both with and without a score dictionary *)
-Definition no_mixed (bs : list (ballot cand)) : Prop :=
-  forall x y, In x bs -> In y bs ->
-    ranking_eqb cand ceqb (rk x) (rk y) = true -> sc x = [] -> sc y = [].
-
-Definition all_pos (bs : list (ballot cand)) : Prop := forall b, In b bs -> 0 < wt b.
-
-(* every content that occurs carries a non-zero total *)
-Definition nonzero_contents (bs : list (ballot cand)) : Prop :=
-  forall b, In b bs -> ~ wtof b bs == 0.
-
 (* a condensed ballot carries neither id nor voter set *)
 Definition anonymous (b : ballot cand) : Prop := bid b = None /\ vs b = None.
 
